@@ -106,6 +106,19 @@ Proof. apply feed_eqb_eq. reflexivity. Qed.
 Lemma cmp_eqb_eq a b : cmp_eqb a b = true <-> a = b.
 Proof. destruct a, b; simpl; split; congruence. Qed.
 
+Lemma list_eqb_refl {A} (f : A -> A -> bool) : (forall x, f x x = true) -> forall l, list_eqb f l l = true.
+Proof. intros R. induction l as [|x l IH]; cbn; auto. rewrite R, IH. reflexivity. Qed.
+Lemma list_eqb_eq {A} (f : A -> A -> bool) : (forall x y, f x y = true -> x = y) ->
+  forall a b, list_eqb f a b = true -> a = b.
+Proof.
+  intros S. induction a as [|x a IH]; intros [|y b] H; cbn in H; try discriminate; auto.
+  apply andb_prop in H as [H1 H2]. f_equal; auto.
+Qed.
+Lemma bmat_eqb_eq (a b : list (list bool)) : list_eqb (list_eqb eqb) a b = true -> a = b.
+Proof. apply list_eqb_eq. apply list_eqb_eq. apply eqb_prop. Qed.
+Lemma cmat_eqb_eq (a b : list (list comparison)) : list_eqb (list_eqb cmp_eqb) a b = true -> a = b.
+Proof. apply list_eqb_eq. apply list_eqb_eq. intros x y. apply cmp_eqb_eq. Qed.
+
 (* ---- the clauses at key level, in the boolean shape used by pair_ok / triple_ok *)
 Lemma pk_eq_cmp a b : eqb (key_eq a b) (is_eq (key_cmp a b)) = true.
 Proof.
@@ -220,11 +233,17 @@ Proof.
     apply forallb_forall. intros k Hk. apply in_seq in Hk. assert (Hk' : (k < length c)%nat) by lia.
     unfold triple_ok, getb, getc. rewrite !getm by (rewrite Ln; assumption).
     apply tk_ok.
+  - apply forallb_forall. intros m Hm. apply repeat_spec in Hm. subst m.
+    apply list_eqb_refl. intros r. apply list_eqb_refl. intros b. apply eqb_reflx.
+  - apply forallb_forall. intros m Hm. apply repeat_spec in Hm. subst m.
+    apply list_eqb_refl. intros r. apply list_eqb_refl. intros b. apply cmp_eqb_eq. reflexivity.
 Qed.
 
 (* ---- what a passed check says about an observed output *)
 Theorem spec_ok_sound c o : spec_ok c o = true ->
-  exists ks e cm, o = OOk ks e cm true /\
+  exists ks e cm xe xc, o = OOk ks e cm true xe xc /\
+  length xe = n_extra /\ length xc = n_extra /\
+  Forall (fun m => m = e) xe /\ Forall (fun m => m = cm) xc /\
   let keys := map logical_key c in
   forall i j, (i < length c)%nat -> (j < length c)%nat ->
     let a := nth i keys dkey in
@@ -245,10 +264,13 @@ Theorem spec_ok_sound c o : spec_ok c o = true ->
          /\ (getc cm i j = Lt -> getc cm j k = Lt -> getc cm i k = Lt)
          /\ (getc cm i j = Eq -> getc cm i k = getc cm j k).
 Proof.
-  destruct o as [|ks e cm aux]; [discriminate|].
+  destruct o as [|ks e cm aux xe xc]; [discriminate|].
   unfold spec_ok. rewrite !andb_true_iff.
-  intros ((((((((Ha & _) & _) & _) & _) & _) & D) & P) & T).
-  exists ks, e, cm. subst aux. split; [reflexivity|].
+  intros ((((((((((((Ha & _) & _) & _) & _) & _) & D) & P) & T) & Le) & Lc) & Xe) & Xc).
+  exists ks, e, cm, xe, xc. subst aux. split; [reflexivity|].
+  split; [apply Nat.eqb_eq; exact Le|]. split; [apply Nat.eqb_eq; exact Lc|].
+  split; [apply Forall_forall; intros m Hm; rewrite forallb_forall in Xe; apply bmat_eqb_eq, Xe, Hm|].
+  split; [apply Forall_forall; intros m Hm; rewrite forallb_forall in Xc; apply cmat_eqb_eq, Xc, Hm|].
   cbv zeta. intros i j Hi Hj.
   set (keys := map logical_key c) in *.
   set (a := nth i keys dkey). set (b := nth j keys dkey).
